@@ -155,6 +155,15 @@ func (ls *lifeScenario) body(x *Exec) {
 			if r, e := w.call("SET", "m1", "queued"); e != "" || r.S != "QUEUED" {
 				viol("setup", "multi client: SET answered %v %s", r, e)
 			}
+		case "not-reading":
+			// the client pipelines commands with large replies and does not read them: the emulator's
+			// write to this connection blocks (4 KiB of send buffer)
+			vnet.SendBuffer = 4096
+			req := vm.Encode("SET", "big", strings.Repeat("B", 3000))
+			for k := 0; k < 6; k++ {
+				req = append(req, vm.Encode("GET", "big")...)
+			}
+			w.c.Write(req)
 		case "blocked":
 			w.send("BLPOP", "kb", "0")
 		case "blocked-timeout":
@@ -375,7 +384,7 @@ func lifeScenarios(tier string) []*Scenario {
 		out = append(out, ls.scenario())
 	}
 	// every single client state at termination
-	for _, st := range []string{"idle", "fresh", "pipeline", "multi", "blocked", "blocked-timeout"} {
+	for _, st := range []string{"idle", "fresh", "pipeline", "multi", "blocked", "blocked-timeout", "not-reading"} {
 		add(&lifeScenario{name: "close/" + st, states: []string{st}, restart: true})
 	}
 	add(&lifeScenario{name: "close/no-clients", restart: true})
@@ -409,6 +418,8 @@ func lifeScenarios(tier string) []*Scenario {
 			add(&lifeScenario{name: "churn/" + strings.Join(sts, "+"), states: sts, restart: true})
 		}
 		add(&lifeScenario{name: "churn/race/gone+gone+idle", states: []string{"gone", "gone", "idle"}, racing: "command"})
+		add(&lifeScenario{name: "close/not-reading+idle+blocked", states: []string{"not-reading", "idle", "blocked"}, restart: true})
+		add(&lifeScenario{name: "race/command/not-reading", states: []string{"idle", "not-reading"}, racing: "command", restart: true})
 		// repeated cycles on one port
 		add(&lifeScenario{name: "cycle/idle-restart-persist", states: []string{"idle", "idle"}, persist: true, restart: true, splitTerm: true})
 	}
